@@ -46,6 +46,8 @@ class Routing:
         self.clean = {d: True for d in self.single}      # nothing disturbed its idle stamp since it emptied
         self.was_empty = {d: True for d in self.single}
         self.was_oper = {d: True for d in self.single}
+        self.held_prev = {}
+        self.pool_prev = {}
         self.down = {d: False for d in self.single}
 
     # -- route walk -----------------------------------------------------------------------
@@ -229,6 +231,12 @@ class Routing:
                 ctx.count('idle_clocks_restarted_at_restoration')
             self.was_oper[d] = oper
             self.was_empty[d] = empty
+            if m.items.get(d, {}).get('res'):
+                self.held_prev[d] = getattr(dev, '_reserved_resources', None) is not None
+        rm = m.world.rm
+        if rm is not None:
+            self.pool_prev = {r: (rm.get_resource_usage(r), rm.get_resource_capacity(r))
+                              for r in ctx.spec.get('resources', {})}
         self.blocked = blocked_now
 
     def idle_longest(self, env, received_now, prev, cen, rewired):
@@ -304,8 +312,19 @@ class Routing:
                         continue
                     it = m.items[c]
                     if it['kind'] == 'processor' and it.get('res'):
-                        ambiguous = True
-                        continue
+                        # a pool user is 'able to take a part' only if its pools had room for it (or it still held its
+                        # reservation) at the previous boundary; several hand-overs in one event are not untangled
+                        if len(lst) > 1:
+                            ambiguous = True
+                            continue
+                        if not self.held_prev.get(c):
+                            if any(a and self.pool_prev.get(r, (0, 0))[1] - self.pool_prev.get(r, (0, 0))[0] < a
+                                   for r, a in it['res'].items()):
+                                continue        # starved: not a candidate
+                            users = [x for x in direct if x != c and m.items.get(x, {}).get('res')]
+                            if users:
+                                ambiguous = True     # (two pool users competing for the same hand-over)
+                                continue
                     if not self.clean[c] or c in rewired or sender in rewired:
                         ambiguous = True
                         continue
